@@ -100,6 +100,10 @@ def strip_cfg_test(lines, counts):
                 if (seen_open and depth == 0) or (not seen_open and t.rstrip().endswith(';')):
                     break
             continue
+        if txt.lstrip().startswith('//!'):
+            # T1b: an inner doc comment (`//!`) is only legal at the head of a file / module; it is a comment
+            counts.bump('T1b_inner_doc_comment')
+            txt = txt.replace('//!', '// ', 1)
         out.append((txt, no))
         i += 1
     return out
@@ -330,9 +334,10 @@ def widen_visibility(lines, counts):
     out = []
     in_struct = False
     for txt, no in lines:
-        if 'pub(super)' in txt:
-            counts.bump('T15_pub_super', txt.count('pub(super)'))
-            txt = txt.replace('pub(super)', 'pub')
+        for restricted in ('pub(super)', 'pub(crate)', 'pub(self)'):
+            if restricted in txt:
+                counts.bump('T15_pub_super', txt.count(restricted))
+                txt = txt.replace(restricted, 'pub')
         s = txt.strip()
         if re.match(r'^struct \w+', txt):
             counts.bump('T15_private_struct')
@@ -565,6 +570,14 @@ def derive(ol, cur_text, unchanged, lost):
     if k == 'drop':
         if unchanged:
             return []
+        mb = re.match(r'^\s*#\[derive\(([^)]*)\)\]\s*$', ol.base or '')
+        mc = re.match(r'^(\s*)#\[derive\(([^)]*)\)\]\s*$', cur_text)
+        if mb and mc:
+            # the overlay drops `#[derive(X)]` (it supplies the impl with a specification): a longer derive list keeps the rest
+            gone = set(x.strip() for x in mb.group(1).split(','))
+            rest = [x.strip() for x in mc.group(2).split(',') if x.strip() and x.strip() not in gone]
+            if len(rest) < len([x for x in mc.group(2).split(',') if x.strip()]):
+                return ['%s#[derive(%s)]' % (mc.group(1), ', '.join(rest))] if rest else []
         lost.append(('drop', ol.ono))
         return [cur_text]
     if k == 'was':
@@ -1007,6 +1020,7 @@ def build_unit(overlay_path, base_root, repo_root, out_path, subst_tables=None, 
         if len([1 for _ in cur]) > len(emitted_code) + sum(len(ol.extra or []) for ol in region if ol.kind == 'arm') + len(cur):
             problems.append({'kind': 'fidelity', 'file': rel})
         i = j + 1
+    out, origin, dropped_new = drop_new_readonly_fns(out, origin, base_root)
     n_spin = 0
     if spinoff:
         out, origin, n_spin = add_spinoff(out, origin)
@@ -1014,7 +1028,54 @@ def build_unit(overlay_path, base_root, repo_root, out_path, subst_tables=None, 
         f.write('\n'.join(out))
         f.write('\n')
     return {'overlay': name, 'out': out_path, 'files': files, 'transform_counts': dict(counts),
-            'problems': problems, 'origin': origin, 'lines': out, 'spinoff_attrs': n_spin}
+            'problems': problems, 'origin': origin, 'lines': out, 'spinoff_attrs': n_spin, 'new_readonly_fns_dropped': dropped_new}
+
+
+def drop_new_readonly_fns(out, origin, base_root):
+    """T22: a function that the base text does not have, that cannot change the collection (no `&mut`, no `unsafe`, no `mut self`)
+    and that nothing in the unit refers to is left out of the verified text: it has no contract and cannot affect a property
+    (Rust's borrow rules).  Returns (lines, origin, [names]).  A new function that takes `&mut self` stays in (and is undecided)."""
+    base_text = {}
+    spans = _fn_spans([(t, 0) for t in out])
+    drop = []
+    for lo, hi in spans:
+        o = origin[lo]
+        if o[0] != 'C':
+            continue
+        rel = o[1]
+        if rel not in base_text:
+            try:
+                base_text[rel] = open(os.path.join(base_root, rel)).read()
+            except OSError:
+                base_text[rel] = ''
+        name = _fn_name(out[lo])
+        if not name or re.search(r'\bfn %s\b' % re.escape(name), base_text[rel]):
+            continue
+        if any(origin[q][0] != 'C' for q in range(lo, hi + 1)):
+            continue
+        body = '\n'.join(out[lo:hi + 1])
+        if '&mut' in body or 'unsafe' in body or re.search(r'\bmut self\b', body):
+            continue
+        refs = sum(1 for q, t in enumerate(out) if not (lo <= q <= hi) and re.search(r'\b%s\b' % re.escape(name), t.split('//')[0]))
+        if refs:
+            continue
+        a = lo
+        while a > 0 and origin[a - 1][0] == 'C' and re.match(r'^\s*(#\[|///)', out[a - 1]):
+            a -= 1
+        drop.append((a, hi, name))
+    if not drop:
+        return out, origin, []
+    keep_out, keep_or = [], []
+    q = 0
+    for a, hi, name in sorted(drop):
+        keep_out.extend(out[q:a])
+        keep_or.extend(origin[q:a])
+        keep_out.append('// (T22) new read-only function `%s` not referred to by any verified code: left out' % name)
+        keep_or.append(('A', 'extract.py', 0))
+        q = hi + 1
+    keep_out.extend(out[q:])
+    keep_or.extend(origin[q:])
+    return keep_out, keep_or, [d[2] for d in drop]
 
 
 _FNHEAD = re.compile(r'^(\s*)(?:pub(?:\([a-z]+\))? )?(?:(?:open|closed|uninterp|broadcast) )*(?:(spec|proof|exec) )?fn (\w+)')
